@@ -5,7 +5,7 @@ applied to the separately evaluated operands (computed here with the plain numbe
 Input {'seed': int, 'n': int}; output {'bad': [{'law', 'theorem', 'expr', 'got', 'want'}], 'probes': N}.
 Only small ints are used, so every comparison is exact.
 """
-import json, operator, os, random, sys
+import inspect, json, operator, os, random, re, sys
 
 import sc3
 sc3.init(os.environ.get('SC3_MODE', 'nrt'))
@@ -364,6 +364,70 @@ def main():
         check('inval_stream_classes', 'inval_binop', 'feed %s to (stream(ident) - stream(lin)), (-stream(ident))' % invs,
               lambda: (feed(stream(mk_id()) - stream(mk_lin())), feed(-stream(mk_id()))),
               ([v - (kk * v + cc2) for v in invs], [-v for v in invs]))
+        # EVERY n-ary method of AbstractObject (discovered from the source), on every receiver kind, with its
+        # optional arguments at default AND non-default values (positional and keyword): the composite equals
+        # the builtin applied per element with the SAME arguments; ChannelList method form (per-number adapter
+        # UGenScalar.<name>) = builtin-function form = per-element call.  Same float computation on both sides.
+        from sc3.base.absobject import AbstractObject
+        src_abs = inspect.getsource(AbstractObject)
+        nary = re.findall(r"def (\w+)\(self,[^)]*\):\s+return self\._compose_narop\(\s*bi\.(\w+)", src_abs)
+        mname, kname = rng.choice(nary)
+        kern = getattr(bi, kname)
+        sig = inspect.signature(getattr(AbstractObject, mname))
+        req = [p for p in list(sig.parameters.values())[1:] if p.default is inspect.Parameter.empty]
+        opt = [p for p in list(sig.parameters.values())[1:] if p.default is not inspect.Parameter.empty]
+        base_vals = {'lo': 1.5, 'hi': 10.0, 'other': 3.0, 'inmin': 1.0, 'inmax': 10.0, 'outmin': 2.0, 'outmax': 100.0,
+                     'incenter': 4.0, 'outcenter': 20.0}
+        rargs = [base_vals.get(p.name, 2.5) for p in req]
+        okw = {}
+        for p in opt:
+            if rng.random() < 0.75:
+                if p.name == 'clip':
+                    okw[p.name] = rng.choice(['minmax', 'min', 'max', None])
+                elif p.name == 'curve':
+                    okw[p.name] = rng.choice([-4, -2.0, 3, 0.0])
+                else:
+                    okw[p.name] = rng.choice([0.25, 0.5, 2.0])
+        as_pos = rng.random() < 0.5 and len(okw) == len(opt)       # all optional given -> may also be positional
+        xs_f = [0.5, 20.0, 4.0, 1.0, 10.0, float(rng.randint(2, 9)) + 0.5]
+        rng.shuffle(xs_f)
+
+        def one(v):
+            try:
+                return kern(v, *rargs, *[okw[p.name] for p in opt]) if as_pos else \
+                    kern(v, *rargs, *[okw.get(p.name, p.default) for p in opt])
+            except Exception as e:
+                return 'raises ' + type(e).__name__
+
+        def call_m(recv):
+            if as_pos:
+                return getattr(recv, mname)(*rargs, *[okw[p.name] for p in opt])
+            return getattr(recv, mname)(*rargs, **okw)
+
+        def guard(th):
+            def run():
+                try:
+                    return th()
+                except Exception as e:
+                    return 'raises ' + type(e).__name__
+            return run
+        wantl = [one(v) for v in xs_f]
+        anyraise = next((w for w in wantl if isinstance(w, str)), None)
+        desc = '%s(%s%s)' % (mname, ', '.join(map(repr, rargs)), ''.join(', %s=%r' % kv for kv in okw.items()))
+        want_all = anyraise if anyraise else wantl
+        check('narop_optional_args_chan_method', 'chan_method_narop_wrap_law', 'list(ChannelList(%s).%s)' % (xs_f, desc),
+              guard(lambda: list(call_m(ChannelList(xs_f)))), want_all)
+        check('narop_optional_args_chan_builtin', 'lift_narop_hom', 'list(bi.%s(ChannelList(%s), ...)) as %s' % (kname, xs_f, desc),
+              guard(lambda: list(kern(ChannelList(xs_f), *rargs, *[okw.get(p.name, p.default) for p in opt]))), want_all)
+        fq = Function(lambda v: v)
+        check('narop_optional_args_function', 'lift_narop_hom', '[Function(lambda v: v).%s(v) for v in %s]' % (desc, xs_f),
+              guard(lambda: [guard(lambda v=v: call_m(fq)(v))() for v in xs_f]), wantl)
+        check('narop_optional_args_stream', 'embedded_narop', 'list(routine_over(%s).%s)' % (xs_f, desc),
+              guard(lambda: list(call_m(routine_over(xs_f)))), want_all)
+        check('narop_optional_args_pattern', 'embedded_narop', 'list(stream(Pseq([Pseq(%s).%s])))' % (xs_f, desc),
+              guard(lambda: list(stream(Pseq([call_m(Pseq(xs_f))])))), want_all)
+        check('narop_optional_args_operand', 'lift_narop_hom', '[Operand(v).%s.value for v in %s]' % (desc, xs_f),
+              guard(lambda: [guard(lambda v=v: call_m(Operand(v)).value)() for v in xs_f]), wantl)
     # keep one (the first) example per law
     seen, out = set(), []
     for b in bad:
